@@ -8,10 +8,11 @@
        history, hashed with the same planes);
      * the neighbourhood of a query is the duplicate-free set of positions found under the query's hash in at
        least one table.
-    ..._partial: scale invariance (c > 0 keeps every sign) is an ordered-field fact checked by the metamorphic
-    relation on the implementation with c from 2^-40 to 2^30. *)
+     * scale invariance (ordered-field laws NumLaws, incl. 0 < x, 0 < y -> 0 < x*y; satisfied by the rationals): for every
+       c > 0 the hash of c*row is the hash of row in every table, so c*row has the neighbourhood of row.
+    At binary64 the products round; the metamorphic relation on the implementation uses c from 2^-40 to 2^30. *)
 From Coq Require Import List ZArith Bool Arith QArith Qcanon Permutation.
-From MW Require Import Num Assoc AssocFacts Rng Par CF CFInv CFClean CFForget CFSpec Matrix Lin Warm WarmInv Nbr NbrFacts NbrIndep LshFacts Clu Tree CellFacts Mab FacadeCF FacadeArms MoreFacts NumLaws CFAlg Sim Extra QcInst.
+From MW Require Import Num Assoc AssocFacts Rng Par CF CFInv CFClean CFForget CFSpec Matrix Lin Warm WarmInv Nbr NbrFacts NbrIndep LshFacts Clu Tree CellFacts Mab FacadeCF FacadeArms MoreFacts NumLaws CFAlg Sim Extra QcInst OrderFacts ExpIrrel LinInv FacadeLin LpInv NbrInv CluTreeInv FacadeAll ToyFacts C09All C10All LinForget LinSim MatrixFacts GaussJordan LinSpec NbrIndepGen CluIndep C17Lin WarmIdem C14More LshScale TreeLeaf Rename.
 Import ListNotations.
 
 Theorem C11_hash_is_value_of_sign_pattern :
@@ -44,5 +45,28 @@ Theorem C11_neighbourhood_is_union_of_collision_buckets :
      In j (aget_d zeqb [] tbl (lsh_hash N ndim plane row))).
 Proof. exact @lsh_neighbourhood_membership. Qed.
 Print Assumptions C11_neighbourhood_is_union_of_collision_buckets.
+
+Theorem C11_hash_invariant_under_positive_scaling :
+  forall (R : Type) (N : Num R),
+  NumLaws N ->
+  forall (ndim : nat) (plane : (@mat R)) (row : list R) (c : R),
+  ltb N (zero N) c = true -> lsh_hash N ndim plane (vscale N c row) = lsh_hash N ndim plane row.
+Proof. exact @lsh_hash_scale_invariant. Qed.
+Print Assumptions C11_hash_invariant_under_positive_scaling.
+
+Theorem C11_neighbourhood_invariant_under_positive_scaling :
+  forall (R A G : Type) (N : Num R),
+  NumLaws N ->
+  forall (s : (@nbr R A G)) (ndim ntab : nat) (row : list R) (c : R) (orc : list nat),
+  n_kind s = NLsh ndim ntab ->
+  ltb N (zero N) c = true -> neighborhood N s (vscale N c row) orc = neighborhood N s row orc.
+Proof. exact @lsh_neighbourhood_scale_invariant. Qed.
+Print Assumptions C11_neighbourhood_invariant_under_positive_scaling.
+
+Theorem C11_sign_of_a_positive_multiple :
+  forall (R : Type) (N : Num R),
+  NumLaws N -> forall c x : R, ltb N (zero N) c = true -> ltb N (zero N) (mul N c x) = ltb N (zero N) x.
+Proof. exact @sign_scale. Qed.
+Print Assumptions C11_sign_of_a_positive_multiple.
 
 
